@@ -47,7 +47,7 @@ ASSUMPTIONS = ["tables are written through cherab.openadas.repository.update_* (
                "extrapolation one decade out stays inside the double range",
                "arguments are finite doubles (no NaN / inf)"]
 QUICK = dict(cases=700, workers=2, timecap=45)
-THOROUGH = dict(cases=30000, workers=16, timecap=600)
+THOROUGH = dict(cases=24000, workers=16, timecap=600)
 REQUIRED = {"knot": 60000, "nonneg": 60000, "nonpositive": 8000, "range_raise": 6000, "range_finite": 6000,
             "isotope": 600, "wavelength": 500, "missing_raise": 400, "missing_null": 1200, "single_point": 300}
 
